@@ -50,6 +50,18 @@ CHECKS.update({
    note="ttrpc/stub goroutines are outside the scheduler; they only react to the controlled thread that calls them, so an execution is a function of the schedule (checked: the default execution twice, every replayed prefix compared); T-sync is limited to pkg/adaptation in this build; deadlock is declared after a 300 ms grace period"),
 })
 
+CHECKS.update({
+ "C12": dict(level="model_checking", ref="4 C12", technique="bounded-exhaustive input enumeration over all message types (protoreflect-driven) with a differential oracle between the two generated codecs",
+   text="For every one of the protocol's message types: the empty message, every value of every single field (integer boundaries incl. negative 32-bit values, empty/multi-byte/long strings, undefined enum values, optional wrappers absent / zero / non-zero, lists, maps, nested messages to depth 2 (3)), every pair of fields over reduced domains, and the all-fields-set instance. Oracle: UnmarshalVT(proto.Marshal(m)) == m, proto.Unmarshal(MarshalVT(m)) == m, both self round trips, SizeVT() == len(MarshalVT()), no panic; equality is proto.Equal (unset vs empty sub-message distinguished).",
+   note="input-space exploration: value ranges are covered by boundary alphabets, not proved; invalid UTF-8 excluded"),
+ "C14": dict(level="model_checking", ref="4 C14", technique="bounded-exhaustive input enumeration of the pure conversion / copy / constructor / mask functions with round-trip and aliasing oracles",
+   text="Resources: 4 baselines x every single and every pair of per-field deviations over 21 fields x {unset, zero, small, extreme}: NRI->OCI->NRI and OCI->NRI->OCI preserve every shared field incl. unset-vs-zero; Copy() is equal and shares no mutable state (every map, slice element and pointer reachable in the copy is mutated by reflection and the original must not change, and vice versa). Mounts, devices (incl. special file-mode bits), hooks, env over empty/non-empty/boundary fields; every optional constructor with value / pointer / wrapper / nil; all 8191 event masks through PrettyString -> ParseEventMask.",
+   note="input-space exploration with boundary alphabets; env entries without '=' excluded; comparison is semantic (nil == empty collection, absent == empty sub-message)"),
+ "C15": dict(level="model_checking", ref="4 C15", technique="exhaustive configuration enumeration: one generated Go type per subset of the 13 handler interfaces x requested masks x events, on the real stub (plus a full-stack sample)",
+   text="Quick: the 586 subsets of size <= 3 or >= 11 plus 128 mixed ones, thorough: all 8191, each with and without a Configure handler. (1) Configure through the real stub with masks {0, S, all, S minus/plus each bit, every single bit, invalid bits, 0 again} (thorough: every mask 0..8191) on one long-lived stub per type: subscribed mask must be S, or the requested subset, or an error. (2) every event through the PluginService methods with distinctive pod/container/resources, handlers succeeding and failing: exactly the right handler, once, with exactly those arguments; adjustment/updates/error returned unchanged. (3) ~150 (600) types through a real connection to a real runtime: the events delivered equal S.",
+   note="types are generated at check time (gen.py) and compiled into the harness; Configure is reached through an export wrapper supplying the channel Start normally creates"),
+})
+
 NOT_YET = {}
 
 def main():
